@@ -190,6 +190,105 @@ COVER = {
 }
 
 
+# the declarations of rkmath.h as clang prints them, RETURN TYPE included: a by-value -> by-reference change, a new overload
+# or a changed parameter list is an inventory break (reported even when no case fails)
+EXPECTED_SIGS = {
+    ("clamp", "T (const T &, const T &, const T &)", "template"),
+    ("deg2rad", "T (const T &)", "template"),
+    ("divRoundUp", "T (T, T)", "template"),
+    ("lerp", "T (const float, const T &, const T &)", "template"),
+    ("linear_to_srgb", "float (const float)", "function"),
+    ("madd", "float (const float, const float, const float)", "function"),
+    ("madd", "typename std::enable_if<std::is_same<T, double>::value, T>::type (const T, const T, const T)", "template"),
+    ("rcp", "double (const double)", "function"),
+    ("rcp", "float (const float)", "function"),
+    ("rcp_safe", "double (const double)", "function"),
+    ("rcp_safe", "float (const float)", "function"),
+    ("rcp_safe_t", "T (const T)", "template"),
+    ("rsqrt", "double (const double)", "function"),
+    ("rsqrt", "float (const float)", "function"),
+    ("sign", "float (const float)", "function"),
+}
+
+# generator family of harness fn 50 (GenStub<R, MIN, MAX>): id -> (min, max); same table as ModelB32.gen_range
+GEN_FAMILY = {0: (0, 2 ** 32 - 1), 1: (1, 2147483646), 2: (1, 6), 3: (0, 2 ** 64 - 1), 4: (1, 2305843009213693950),
+              5: (5, 1005), 6: (1000000007, 1000000262)}
+
+
+def oracle_generic_uniform(fn, t, out):
+    """uniform_real_distribution<T> over ANY generator: value in [l, rn(rn(u-l)+l)] at T's precision"""
+    try:
+        o = int(out.split()[0])
+    except (ValueError, IndexError):
+        return False, "a number"
+    a = [int(x) for x in t]
+    T = a[1]
+    lo_b, hi_b = (a[2], a[3]) if fn == 50 else (a[3], a[4])
+    if T == 32:
+        lo, hi, v = fb(lo_b), fb(hi_b), fb(o)
+        add = fadd
+    else:
+        lo, hi, v = db(lo_b), db(hi_b), db(o)
+        add = lambda x, y: x + y
+    if lo != lo or hi != hi or not lo <= hi or math.isinf(lo) or math.isinf(hi):
+        return True, "(lower>upper, NaN or infinite: no requirement)"
+    d = add(hi, -lo)
+    if math.isinf(d):
+        return True, "(upper-lower overflows: no requirement)"
+    top = add(d, lo)
+    return lo <= v <= top, "uniform_real_distribution<%s> over %s: value in [l, rn(rn(u-l)+l)] = [%r, %r]" % (
+        "float" if T == 32 else "double", ("generator [%d,%d] sample %d" % (GEN_FAMILY[a[0]] + (a[4],))) if fn == 50
+        else ("std engine %d seed %d" % (a[0], a[2])), lo, top)
+
+
+def gen_generic_uniform_cases(r, scale):
+    """fn 50: both precisions over the generator family (min()==0 and !=0, 32/64-bit result types, ranges that fill the type
+    and ranges that do not), the sample ENUMERATED: both extremes always, every value of the small ranges; fn 51: std engines
+    incl. the seeds whose first draw is max() (minstd_rand0(739806647), minstd_rand(247665088))."""
+    f_ranges = [(0.0, 1.0), (-1.0, 1.0), (1.0, 2.0), (0.0, 2.0 ** -140), (-(2.0 ** -130), 2.0 ** -131), (1e30, 3e30), (0.25, 0.25),
+                (0.0, 1e-30), (-3.0, 5.5)]
+    d_ranges = [(0.0, 1.0), (-1.0, 1.0), (1.0, 2.0), (0.0, 2.0 ** -1060), (-(2.0 ** -1040), 2.0 ** -1041), (1e300, 1.5e300), (0.25, 0.25),
+                (0.0, 1e-30), (-3.0, 5.5), (0.0, 1e-310)]
+    fc, oc = [], []
+    for g, (mn, mx) in GEN_FAMILY.items():
+        span = mx - mn
+        if span <= 300:
+            ks = list(range(mn, mx + 1))
+        else:
+            ks = [mn, mn + 1, mn + 2, mx - 2, mx - 1, mx, mn + span // 2, mn + span // 3] + [r.randint(mn, mx) for _ in range(2 * scale)]
+        for k in ks:
+            rs = f_ranges if (k in (mn, mx) or span <= 6) else r.sample(f_ranges, 2)
+            for lo, hi in rs:
+                fc.append("50 %d 32 %d %d %d" % (g, bf(f32(lo)), bf(f32(hi)), k))
+            rs = d_ranges if (k in (mn, mx) or span <= 6) else r.sample(d_ranges, 2)
+            for lo, hi in rs:
+                fc.append("50 %d 64 %d %d %d" % (g, bd(lo), bd(hi), k))
+    for eng in range(5):
+        for seed in [1, 42, 739806647, 247665088, 2147483646, r.getrandbits(31)]:
+            for lo, hi in f_ranges[:4]:
+                oc.append("51 %d 32 %d %d %d" % (eng, seed, bf(f32(lo)), bf(f32(hi))))
+            for lo, hi in d_ranges[:4]:
+                oc.append("51 %d 64 %d %d %d" % (eng, seed, bd(lo), bd(hi)))
+    return fc, oc
+
+
+def gen_ref_cases(fcases, icases, r):
+    """'60 <case>': every function of the rkmath.h inventory once more, its result kept BY REFERENCE (auto&& r = f(temporaries))
+    and read in a later statement; plus clamp with defaulted bounds.  A sample of the by-value cases of each function."""
+    by_fn = {}
+    for c in fcases + icases:
+        fn = int(c.split()[0])
+        if fn in (1, 2, 3, 4, 5, 6, 7, 8, 14, 20, 21, 22, 23, 24, 27, 40, 41, 42, 43, 44, 45, 46, 47):
+            by_fn.setdefault(fn, []).append(c)
+    base = []
+    for fn, cs in sorted(by_fn.items()):
+        base += cs[:25] + r.sample(cs, min(25, len(cs)))
+    base += ["14 %d" % b for b in (0, 0x3F000000, 0x3F800000, 0x40000000)]
+    base += ["48 %d" % b for b in (0, 0x3F000000, 0x3F800000, 0x40000000, 0xBF800000, 0x80000000)]
+    base += ["49 %d" % bd(v) for v in (0.0, 0.5, 1.0, 2.0, -1.0, -0.0)]
+    return base
+
+
 def inventory(ctx):
     """namespace-level functions and function templates of rkcommon::math declared by rkmath.h (clang AST)"""
     sys_path = os.path.join(ctx.verif, "tools", "cxx2coq")
@@ -243,6 +342,8 @@ def oracle(case, out, build, exe_query=None):
     t = case.split()
     if 40 <= int(t[0]) <= 47:
         return oracle_double(int(t[0]), t[1:], out)
+    if int(t[0]) in (50, 51):
+        return oracle_generic_uniform(int(t[0]), t[1:], out)
     fn, a = int(t[0]), [int(x) for x in t[1:]]
     if out.endswith("NONREPRO"):
         return False, "two generators seeded identically must produce identical values"
@@ -578,6 +679,8 @@ def nontrivial(case, out):
         return (a[0] & 0x7FFFFF) != 0 and (a[1] & 0x7FFFFF) != 0
     if fn in (10, 15, 26, 28):
         return len(set(a)) > 1
+    if fn in (50, 51):
+        return True
     if 40 <= fn <= 46:        # a double at a format boundary, or one that narrows to +-0.0f / +-inf / a float denormal
         return any((x & 0x7FFFFFFFFFFFFFFF) < 0x0010000000000004 or (x & 0x7FFFFFFFFFFFFFFF) >= 0x7FD0000000000000
                    or abs(db(x)) < 1.1754943508222875e-38 or abs(db(x)) > 3.4028234663852886e38 for x in a[-2:] + a[:1])
@@ -884,7 +987,8 @@ def make_float_cases(ctx):
     fcases = (gen_float_cases(r, scale) + gen_dist_cases(r, scale) + color_boundary_inputs()
               + ["10 %d %d %d %d" % t for t in twin10] + gen_double_cases(r, scale))
     ocases = gen_oracle_only_cases(r, scale) + ["10 %d %d %d %d" % t for t in rest10]     # ... the rest oracle-only
-    return fcases, ocases
+    gfc, goc = gen_generic_uniform_cases(r, scale)
+    return fcases + gfc, ocases + goc
 
 
 def build_and_sweep(ctx):
@@ -895,6 +999,7 @@ def build_and_sweep(ctx):
         dict(sources=["exh.cpp"], out="exh_nosimd", sanitize=None, opt="-O2", flags=CXXFLAGS + ["-DRKCOMMON_NO_SIMD"]),
         dict(sources=["harness.cpp"], out="h_simd", sanitize="asan", **common),
         dict(sources=["harness.cpp"], out="h_nosimd", sanitize="asan", flags=CXXFLAGS + ["-DRKCOMMON_NO_SIMD"]),
+        dict(sources=["harness.cpp"], out="h_o2", sanitize=None, opt="-O2", **common),
     ])
     sweeps = {}
     if all(exes) and not getattr(ctx, "replay", None):
@@ -906,9 +1011,53 @@ def build_and_sweep(ctx):
         runs = {}
         for lab, exe in (("SIMD", exes[2]), ("NO_SIMD", exes[3])):
             runs[lab] = vlib.run_lines(ctx, exe, [], fcases + ocases)
+        # results consumed by reference: own processes, so that a sanitizer abort there does not hide the other legs
+        base = gen_ref_cases(fcases, gen_int_cases(ctx.rng("int"), ctx.pick(1, 5)), ctx.rng("ref"))
+        refs = {}
+        for lab, exe in (("SIMD", exes[2]), ("NO_SIMD", exes[3]), ("O2", exes[4])):
+            refs[lab] = (vlib.run_lines(ctx, exe, [], base), vlib.run_lines(ctx, exe, [], ["60 " + c for c in base]))
+        sweeps["refs"] = (base, refs)
         mvals = coq_eval(ctx, fcases)      # the .vo files were built by run() before this thread started
         sweeps["cases"] = (fcases, ocases, runs, mvals)
     return exes, sweeps
+
+
+def parallel_coq_check(ctx, files):
+    """ctx.coq_check on each Properties file concurrently (vlib prints the assumptions of every theorem in ONE coqc process,
+    about 1.1 s per Reals-dependent theorem; three processes bring the pass from ~110 s to the longest file).  The project
+    has been built by run() already, so the makes inside are no-ops.  Each call gets a shallow copy of ctx with its own
+    scratch directory (the lists broken/trusted/assumptions stay shared); counts, axioms and logs are merged."""
+    import copy
+    subs = []
+    for i, f in enumerate(files):
+        c = copy.copy(ctx)
+        c.build = os.path.join(ctx.build, "assum%d" % i)
+        os.makedirs(c.build, exist_ok=True)
+        c.obligations = c.discharged = 0
+        c.cov = {}
+        subs.append((c, f))
+    t0 = ctx.t0
+    with ThreadPoolExecutor(max_workers=len(subs)) as ex:
+        res = list(ex.map(lambda cf: cf[0].coq_check((cf[1],)), subs))
+    ctx.axioms, logs, thms, wall = {}, [], [], 0.0
+    for (c, f), r in zip(subs, res):
+        ctx.obligations += c.obligations
+        ctx.discharged += c.discharged
+        ctx.axioms.update(getattr(c, "axioms", {}))
+        logs.append(getattr(c, "coq_log", ""))
+        thms += c.cov.get("theorems", [])
+        wall = max(wall, c.cov.get("coq_wall_s", 0.0))
+    ctx.coq_log = "\n".join(logs)
+    ctx.checker_cmd = ("make -C coq/C07 -f Makefile.coq (coqc 8.16.1 full .vo build) + Print Assumptions on every theorem of %s "
+                       "(one coqc process per file)" % ",".join(files))
+    ctx.cov["coq_wall_s"] = wall
+    ctx.cov["theorems"] = sorted(thms)
+    closed = sum(1 for v in ctx.axioms.values() if not v)
+    allax = sorted({a for v in ctx.axioms.values() for a in v})
+    ctx.trusted[:] = [t for t in ctx.trusted if not t.startswith("Print Assumptions:") and not t.startswith("Coq 8.16.1 kernel")]
+    ctx.trusted.insert(0, "Coq 8.16.1 kernel (coqc, full .vo build, vm_compute; no native_compute)")
+    ctx.trusted.insert(1, "Print Assumptions: %d/%d property theorems closed under the global context; axioms used by the others: %s"
+                       % (closed, len(ctx.axioms), ", ".join(allax) if allax else "none"))
 
 
 def run(ctx):
@@ -919,7 +1068,7 @@ def run(ctx):
     ctx.coq_make()
     pool = ThreadPoolExecutor(max_workers=1)
     fut = pool.submit(build_and_sweep, ctx)
-    ctx.coq_check(("Properties.v", "PropertiesGen.v", "PropertiesGenRandom.v"))
+    parallel_coq_check(ctx, ("Properties.v", "PropertiesGen.v", "PropertiesGenRandom.v"))
     # name the regenerated obligation that broke (ProofsGen.v is one file: the first failing lemma stops it)
     m = re.search(r'File "\./(ProofsGen(?:Random)?)\.v", line (\d+)', getattr(ctx, "coq_log", ""))
     if m:
@@ -948,7 +1097,7 @@ def run(ctx):
     model = ctx.extract(snippets=["conv_N.ml", "conv_Z.ml", "conv_nat.ml"])
     exes, sweeps = fut.result()
     pool.shutdown()
-    exh_simd, exh_nosimd, h_simd, h_nosimd = exes
+    exh_simd, exh_nosimd, h_simd, h_nosimd, h_o2 = exes
     if getattr(ctx, "replay", None):
         doc = json.load(open(ctx.replay))
         if doc.get("case"):
@@ -1040,8 +1189,42 @@ def run(ctx):
                 reported.add((lab, fn, "corr"))
                 ctx.broken.append("correspondence binary32 Coq model vs %s build on case %r: impl=%s model=%s (property oracle satisfied: %s)"
                                   % (lab, c, il, mvals[i], req))
+    # ---- results kept by reference and read later (every inventory function; ASan both builds + an -O2 build)
+    base, refs = sweeps["refs"]
+    nref = 0
+    for lab, ((rc0, byval, e0), (rc1, byref, e1)) in refs.items():
+        nref += len(byref)
+        if rc1 != 0 or len(byref) != len(base):
+            n = len(byref)
+            ctx.violation("%s build: result of '%s' kept by reference (auto&& r = f(temporaries...)) and read in a later statement: "
+                          "the harness dies (rc=%s) -- dangling reference" % (lab, base[n] if n < len(base) else "?", rc1),
+                          {"build": lab, "case": "60 " + base[n] if n < len(base) else None,
+                           "args_float": [repr(fb(int(x))) for x in base[n].split()[1:]] if n < len(base) and int(base[n].split()[0]) < 40 else None,
+                           "stderr_tail": e1[-1500:], "required": "the result may be bound to a reference and used after the full "
+                           "expression (every function of rkmath.h returns by value)"}, found_input=n < len(base))
+            continue
+        for c, v0, v1 in zip(base, byval, byref):
+            if v0 != v1:
+                ctx.violation("%s build: '%s' gives %s by value but %s when the result is kept by reference and read in a later "
+                              "statement (dangling reference)" % (lab, c, v0, v1),
+                              {"build": lab, "case": "60 " + c, "by_value": v0, "by_reference": v1,
+                               "required": "same value: the functions of rkmath.h return by value"})
+                break
+    ctx.count(nref)
+    ctx.cov["by_reference_cases"] = {"functions": sorted({int(c.split()[0]) for c in base}), "cases_x_3_builds": nref}
     # which (function, type) pairs of rkmath.h are exercised: AST inventory vs the coverage table
     inv = inventory(ctx)
+    for item in inv:
+        if tuple(item) not in EXPECTED_SIGS:
+            ctx.broken.append("rkmath.h inventory: declaration changed or added: %s %s : %s (signature incl. return type is part of "
+                              "the contract; expected one of %s)" % (item[2], item[0], item[1],
+                                                                      sorted(sg for n, sg, k in EXPECTED_SIGS if n == item[0])))
+    for b in ctx.broken:
+        if b.startswith("rkmath.h inventory:"):
+            ctx.log(b)
+    for item in EXPECTED_SIGS:
+        if item not in set(map(tuple, inv)):
+            ctx.broken.append("rkmath.h inventory: declaration no longer present: %s %s : %s" % (item[2], item[0], item[1]))
     pairs = {}
     for name, sig, kind in inv:
         if name not in COVER:
